@@ -245,7 +245,7 @@ func verifyIssuer(tokenIssuer, expectedIssuer string) error {
 //   - nil if the time constraint is met within the allowed tolerance.
 //   - An error describing the failure (e.g., "token has expired", "token used before issued").
 func verifyTimeConstraint(unixTime float64, claimName string, future bool) error {
-	claimTime := time.Unix(int64(unixTime), 0)
+	claimTime := time.Unix(saturatedUnixSeconds(unixTime), 0)
 	now := time.Now() // Use current time without truncation
 
 	var err error
@@ -268,6 +268,21 @@ func verifyTimeConstraint(unixTime float64, claimName string, future bool) error
 	}
 
 	return err
+}
+
+// saturatedUnixSeconds converts a NumericDate to whole seconds. Values beyond
+// +-2^62 s saturate: int64() of an out-of-range float64 is implementation
+// defined (the minimum int64 on amd64), which made a far-future iat/nbf look
+// like the distant past and a far-future exp look expired.
+func saturatedUnixSeconds(v float64) int64 {
+	const limit = 1 << 62
+	if v >= limit {
+		return limit
+	}
+	if v <= -limit {
+		return -limit
+	}
+	return int64(v)
 }
 
 // verifyExpiration checks the 'exp' (Expiration Time) claim.
